@@ -28,7 +28,7 @@ def group_runs(g, tier):
             W('phys', 'random', names='rnd', walks=6 if q else 200, length=40),
             W('mem', 'edges', lts='chain', frac=0.25 if q else 1.0), W('phys', 'edges', lts='chain', frac=0.1 if q else 1.0, names='dotted'),
             W('mem', 'edges', lts='wide', frac=0.03 if q else 1.0, names='prefix2'), W('phys', 'random', lts='wide', walks=6 if q else 300, length=40, names='multi'),
-            W('mem', 'random', names='prefix2', walks=12 if q else 400, length=40), W('mem', 'random', lts='deep', names='prefix2', walks=8 if q else 300, length=40),
+            W('mem', 'random', names='prefix2', walks=12 if q else 400, length=40), W('mem', 'random', names='nearwo', walks=6 if q else 200, length=40), W('mem', 'random', lts='deep', names='prefix2', walks=8 if q else 300, length=40),
             W('mem', 'random', names='dotted', walks=20 if q else 500, length=40),
             W('mem', 'random', names='multi', b=3, walks=20 if q else 500, length=40),
             W('mem', 'random', names='long', b=4096, walks=6 if q else 100, length=30),
@@ -76,6 +76,8 @@ def group_runs(g, tier):
             W('ovl(mem,mem)', 'edges', lts='wide', frac=0.02 if q else 1.0, split=True), W('ovl(mem,phys)', 'random', lts='wide', walks=5 if q else 200, length=40, split=True),
             W('ovl(mem,mem)', 'random', lts='chain', walks=10 if q else 400, length=40, split=True, lower_only=True),
             W('ovl(mem,mem)', 'random', names='prefix2', walks=8 if q else 300, length=40, split=True),
+            W('ovl(mem,mem)', 'random', names='nearwo', walks=10 if q else 300, length=40, split=True), W('ovl(mem,mem,mem)', 'edges', names='nearwo', frac=0.01 if q else 0.3, split=True),
+            W('ovl(phys,mem)', 'random', names='nearwo', lts='deep', walks=5 if q else 200, length=40, split=True),
             W('ovl(mem,mem)', 'random', names='rnd', walks=8 if q else 300, length=40, split=True), W('ovl(phys,mem)', 'random', names='rnd', walks=5 if q else 200, length=40, split=True),
             W('ovl(ovl(mem,mem),mem)', 'random', names='multi', walks=8 if q else 300, length=40, split=True),
             W('ovl(mem,mem)', 'edges', lts='deep', frac=0.08 if q else 1.0, split=True),
@@ -130,7 +132,7 @@ def group_runs(g, tier):
         def H(cfg, names='ascii', b=1, walks=40, depth=1, nz=False):
             return dict(kind='handles', cfg=cfg, names=names, b=b, walks=walks, len=60, lower=False, depth=depth, extreme=True, inst='MC_Handles_q', tspec='Trace_Handles', no_zero_read=nz)
         return [
-            W('async:mem', 'edges', frac=0.04 if q else 1.0), W('async:mem', 'random', names='prefix', walks=15 * k, length=40), W('async:mem', 'random', names='prefix2', walks=10 * k, length=40), W('async:mem', 'edges', lts='chain', frac=0.2 if q else 1.0),
+            W('async:mem', 'edges', frac=0.04 if q else 1.0), W('async:mem', 'random', names='prefix', walks=15 * k, length=40), W('async:mem', 'random', names='prefix2', walks=10 * k, length=40), W('async:ovl(mem,mem)', 'random', names='nearwo', walks=8 * k, length=40, split=True), W('async:mem', 'edges', lts='chain', frac=0.2 if q else 1.0),
             W('async:ovl(mem,mem)', 'random', lts='chain', walks=6 * k, length=40), W('async:mem', 'random', lts='wide', walks=6 * k, length=40), W('async:mem', 'random', names='rnd', walks=8 * k, length=40),
             W('async:phys', 'edges', frac=0.015 if q else 0.5), W('async:phys', 'random', names='multi', b=8193, walks=6 * k, length=30),
             W('async:alt(zr,mem)', 'random', names='dotted', walks=12 * k, length=40), W('async:alt(zr/zs,phys)', 'random', walks=6 * k, length=30),
